@@ -26,6 +26,9 @@ type vSlotScenario struct {
 	StallName string          `json:"stallname"`
 	StallPt   int             `json:"stallpt"`
 	StallOcc  int             `json:"stallocc"`
+	UntilName string          `json:"untilname"`
+	UntilPt   int             `json:"untilpt"`
+	UntilOcc  int             `json:"untilocc"`
 	ID        string          `json:"id"`
 	Seed      int64           `json:"seed"`
 	Strategy  string          `json:"strategy"`
@@ -129,6 +132,7 @@ func vRunSlotScenario(sc *vSlotScenario) ([]vOutEvent, map[string]interface{}) {
 	}
 	s.plan = sc.Plan
 	s.stallName, s.stallPt, s.stallOcc = sc.StallName, int32(sc.StallPt), sc.StallOcc
+	s.untilName, s.untilPt, s.untilOcc = sc.UntilName, int32(sc.UntilPt), sc.UntilOcc
 	r := &vSlotRun{sc: sc, s: s}
 	s.emit = r.ev
 	mp := vNewManualPoll(s, "poller")
